@@ -1,3 +1,178 @@
-import CLModel.Model.Registry
+import CLModel.Proofs.Registry
+/-!
+# C14 — Tails are correct and the secret tail is never published
+
+Model: `Reg.TailsGen` (`RevocationTailsGenerator`) in exponent form; `size = 2L+1` and the
+suppressed position `(size/2)+1` are the u32 expressions regenerated from
+`/repo/src/types.rs` (`Gen.tailsSizeExpr`, `Gen.suppressedIndexExpr`).
+All theorems: every commutative ring `F`, every `γ`, every `L` with `2L+1 < 2^32`, both
+overflow modes.
+-/
 namespace CL.C14
+open CL CL.Reg
+
+variable {F : Type} [CommRing F]
+
+/-- registry sizes for which `2 * max_cred_num + 1` fits a u32 -/
+def TailsSizeOk (L : ℕ) : Prop := 2 * L + 1 < 4294967296
+
+theorem tailsSize_spec (m : OvfMode) (L : ℕ) (hL : TailsSizeOk L) :
+    tailsSize m L = .ok (2 * L + 1) := by
+  unfold TailsSizeOk at hL
+  unfold tailsSize Gen.tailsSizeExpr
+  simp only [IExpr.eval, envGet, binop_mul_ok]
+  rw [IntTy.fit_ok (by simp; omega) (by simp; omega)]
+  simp only [binop_add_ok]
+  rw [IntTy.fit_ok (by simp; omega) (by simp; omega)]
+  simp only [Outcome.map_ok]
+  congr 1
+
+/-- **the suppressed position is `L+1`** for every `L` in range (regenerated expression) -/
+theorem suppressed_index_is_L_plus_1 (m : OvfMode) (L : ℕ) (hL : TailsSizeOk L) :
+    suppressedIndex m (2 * L + 1) = .ok (L + 1) := by
+  unfold TailsSizeOk at hL
+  unfold suppressedIndex Gen.suppressedIndexExpr
+  simp only [IExpr.eval, envGet]
+  rw [binop_div_ok _ _ _ _ (by decide)]
+  have hd : Int.tdiv ((2 * L + 1 : ℕ) : Int) 2 = (L : Int) := by
+    rw [Int.tdiv_eq_ediv_of_nonneg (by omega)]; omega
+  rw [hd, IntTy.fit_ok (by simp) (by simp; omega)]
+  simp only [binop_add_ok]
+  rw [IntTy.fit_ok (by simp; omega) (by simp; omega)]
+  simp only [Outcome.map_ok]
+  congr 1
+
+/-- what position `k` of the generator must hold: `γ^k`, except `g'` (exponent 1) at `L+1` -/
+def expected (γ : F) (L k : ℕ) : F := if k = L + 1 then 1 else γ ^ k
+
+/-- one call of `try_next` in state `idx = k < 2L+1`, `cur = γ^(k-1)` (or `None` for `k = 0`):
+    emits `expected k`, moves to `idx = k+1`, `cur = γ^k`. -/
+theorem tryNext_step (γ : F) (m : OvfMode) (L k : ℕ) (hL : TailsSizeOk L) (hk : k < 2 * L + 1) :
+    TailsGen.tryNext ringOps γ m
+        (⟨2 * L + 1, k, if k = 0 then none else some (γ ^ (k - 1))⟩ : TailsGen F)
+      = .ok (⟨2 * L + 1, k + 1, some (γ ^ k)⟩, some (expected γ L k)) := by
+  have hge : ¬ (k ≥ 2 * L + 1) := by omega
+  simp only [TailsGen.tryNext, hge, if_false, suppressed_index_is_L_plus_1 m L hL, Outcome.map_ok]
+  by_cases h0 : k = 0
+  · subst h0
+    simp [expected]
+  · have hcur : (γ ^ (k - 1)) * γ = γ ^ k := by
+      rw [← pow_succ]; congr 1; omega
+    simp only [h0, if_false, ringOps_mul, ringOps_one, hcur, expected]
+    by_cases hs : k = L + 1
+    · simp [hs]
+    · have : (k == L + 1) = false := by simpa using hs
+      simp [this, hs]
+
+/-- after the last tail the generator answers `None` and stays where it is -/
+theorem tryNext_exhausted (γ : F) (m : OvfMode) (g : TailsGen F) (h : g.idx ≥ g.size) :
+    g.tryNext ringOps γ m = .ok (g, none) := by
+  simp [TailsGen.tryNext, h]
+
+/-- state of the generator after `k` calls -/
+def stateAfter (γ : F) (L k : ℕ) : TailsGen F :=
+  ⟨2 * L + 1, k, if k = 0 then none else some (γ ^ (k - 1))⟩
+
+theorem drain_step (γ : F) (m : OvfMode) (n : ℕ) (g g' : TailsGen F) (t : F) (acc : List F)
+    (h : g.tryNext ringOps γ m = .ok (g', some t)) :
+    TailsGen.drain ringOps γ m (n + 1) g acc = TailsGen.drain ringOps γ m n g' (t :: acc) := by
+  rw [TailsGen.drain, h]
+
+theorem drain_done (γ : F) (m : OvfMode) (n : ℕ) (g g' : TailsGen F) (acc : List F)
+    (h : g.tryNext ringOps γ m = .ok (g', none)) :
+    TailsGen.drain ringOps γ m (n + 1) g acc = .ok acc.reverse := by
+  rw [TailsGen.drain, h]
+
+theorem stateAfter_succ (γ : F) (L k : ℕ) :
+    (⟨2 * L + 1, k + 1, some (γ ^ k)⟩ : TailsGen F) = stateAfter γ L (k + 1) := by
+  simp [stateAfter]
+
+/-- draining from the state after `k` calls with fuel `n + e`, `k + n = 2L+1`, `e ≥ 1`:
+    exactly the `n` remaining tails, then `None`. -/
+theorem drain_spec (γ : F) (m : OvfMode) (L : ℕ) (hL : TailsSizeOk L) (e : ℕ) :
+    ∀ (n k : ℕ) (acc : List F), k + n = 2 * L + 1 →
+      TailsGen.drain ringOps γ m (n + (e + 1)) (stateAfter γ L k) acc
+        = .ok (acc.reverse ++ (List.range' k n).map (expected γ L)) := by
+  intro n
+  induction n with
+  | zero =>
+    intro k acc hk
+    have hex : (stateAfter γ L k : TailsGen F).idx ≥ (stateAfter γ L k : TailsGen F).size := by
+      simp [stateAfter]; omega
+    have : 0 + (e + 1) = e + 1 := by omega
+    rw [this, drain_done γ m e _ _ acc (tryNext_exhausted γ m _ hex)]
+    simp
+  | succ n ih =>
+    intro k acc hk
+    have hk' : k < 2 * L + 1 := by omega
+    have : n + 1 + (e + 1) = (n + (e + 1)) + 1 := by omega
+    rw [this]
+    have hstep := tryNext_step γ m L k hL hk'
+    rw [stateAfter_succ] at hstep
+    rw [drain_step γ m _ (stateAfter γ L k) _ _ acc hstep, ih (k + 1) _ (by omega)]
+    simp [List.range'_succ]
+
+/-- **the generator yields exactly `2L+1` tails, the `k`-th being `γ^k` for `k ≠ L+1` and
+`g'` at `k = L+1`, then `None`** (from a freshly created generator; any larger fuel). -/
+theorem tails_sequence (γ : F) (m : OvfMode) (L : ℕ) (hL : TailsSizeOk L) (extra : ℕ) :
+    ((TailsGen.new m L : Outcome (TailsGen F)).bind fun g =>
+        TailsGen.drain ringOps γ m (2 * L + 1 + (extra + 1)) g [])
+      = .ok ((List.range (2 * L + 1)).map (expected γ L)) := by
+  simp only [TailsGen.new, tailsSize_spec m L hL, Outcome.map_ok, Outcome.bind_ok]
+  have h0 : (⟨2 * L + 1, 0, none⟩ : TailsGen F) = stateAfter γ L 0 := by simp [stateAfter]
+  rw [h0, drain_spec γ m L hL extra (2 * L + 1) 0 [] (by omega)]
+  simp [List.range_eq_range']
+
+/-- **count is consistent**: before the `k`-th call (`k ≤ 2L+1`) `count()` is `2L+1-k` -/
+theorem count_consistent (γ : F) (L k : ℕ) :
+    (stateAfter γ L k).count = 2 * L + 1 - k := rfl
+
+/-- **the secret tail is never emitted**: if `γ ≠ 0` … precisely, if `γ^d ≠ 1` for
+`1 ≤ d ≤ L+1` and `γ` is not a zero divisor-free obstacle (`F` a domain is not needed:
+we only use cancellation by a power of `γ`, stated as the hypothesis `hcancel`), no emitted
+position equals `γ^(L+1)`. In the BN254 exponent field (`F = ZMod r`, `r` prime) `hcancel`
+holds for every `γ ≠ 0`; the harness evaluates both hypotheses on every generated key. -/
+theorem secret_never_emitted (γ : F) (L k : ℕ) (hk : k < 2 * L + 1)
+    (hord : ∀ d, 1 ≤ d → d ≤ L + 1 → γ ^ d ≠ 1)
+    (hcancel : ∀ a b : ℕ, γ ^ (a + b) = γ ^ a → γ ^ b = 1) :
+    expected γ L k ≠ γ ^ (L + 1) := by
+  unfold expected
+  by_cases hs : k = L + 1
+  · simp only [hs, if_true]
+    exact fun h => hord (L + 1) (by omega) (le_refl _) h.symm
+  · simp only [hs, if_false]
+    intro h
+    rcases Nat.lt_or_gt_of_ne hs with hlt | hgt
+    · -- γ^k = γ^(k + (L+1-k))  ⇒  γ^(L+1-k) = 1
+      have e : L + 1 = k + (L + 1 - k) := by omega
+      rw [e] at h
+      exact hord (L + 1 - k) (by omega) (by omega) (hcancel k (L + 1 - k) h.symm)
+    · have e : k = (L + 1) + (k - (L + 1)) := by omega
+      rw [e] at h
+      exact hord (k - (L + 1)) (by omega) (by omega) (hcancel (L + 1) (k - (L + 1)) h)
+
+/-- `hcancel` holds in every field for `γ ≠ 0` -/
+theorem cancel_of_field {K : Type} [Field K] (γ : K) (hγ : γ ≠ 0) (a b : ℕ)
+    (h : γ ^ (a + b) = γ ^ a) : γ ^ b = 1 := by
+  rw [pow_add] at h
+  have ha : γ ^ a ≠ 0 := pow_ne_zero a hγ
+  have : γ ^ a * γ ^ b = γ ^ a * 1 := by rw [h, mul_one]
+  exact mul_left_cancel₀ ha this
+
+/-- **deterministic**: the sequence is a function of `(L, γ)` (and `g'`, the unit of the
+exponent representation) only — two generators created for the same keys agree. -/
+theorem generator_deterministic (γ : F) (m m' : OvfMode) (L : ℕ) (hL : TailsSizeOk L) (e e' : ℕ) :
+    ((TailsGen.new m L : Outcome (TailsGen F)).bind fun g =>
+        TailsGen.drain ringOps γ m (2 * L + 1 + (e + 1)) g [])
+    = ((TailsGen.new m' L : Outcome (TailsGen F)).bind fun g =>
+        TailsGen.drain ringOps γ m' (2 * L + 1 + (e' + 1)) g []) := by
+  rw [tails_sequence γ m L hL e, tails_sequence γ m' L hL e']
+
+/-! non-vacuity -/
+example : TailsSizeOk 10000 := by unfold TailsSizeOk; omega
+example : expected (2 : ℚ) 2 3 = 1 ∧ expected (2 : ℚ) 2 4 = 16 := by
+  constructor
+  · simp [expected]
+  · simp [expected]; norm_num
+
 end CL.C14
